@@ -343,7 +343,8 @@ def get_pool_executor(mode: ModeSolver, n_workers: int = None) -> parallel.Execu
     :rtype: parallel.Executor
     """
     return (
-        parallel.ThreadPoolExecutor(n_workers) if mode == ModeSolver.THREAD else parallel.ProcessPoolExecutor(n_workers)
+        parallel.ThreadPoolExecutor(n_workers) if mode == ModeSolver.THREAD
+        else parallel.ProcessPoolExecutor(n_workers, initializer=np.random.seed)
     )
 
 
